@@ -161,15 +161,23 @@ class Run:
             if r.returncode != 0:
                 self.broken_obligation("Generated/Tables.v", "the table translator rejected the source: " + r.stderr.strip()[-600:])
                 return False
+            import extra_checks
+            layer_generators = set(g for gens, _ in extra_checks.EXTRA.values() for g in gens)
+            degraded = False
             for g in extra_generators:
                 out_name = "Tables" + g.replace("gen_tables_", "").replace(".py", "").capitalize() + ".v"
                 r = subprocess.run([PY, os.path.join(VERIF, "harness", g), os.path.join(COQDIR, "Generated", out_name)],
                                    env=env_for_impl(), capture_output=True, text=True, timeout=120)
                 if r.returncode != 0:
                     self.broken_obligation("Generated/" + out_name, "the table translator rejected the source: " + r.stderr.strip()[-600:])
-                    return False
+                    if g not in layer_generators:
+                        return False
+                    degraded = True       # an additional layer generated from the source: go on with the property's own file
             ensure_makefile()
-            targets = ["Props/%s.vo" % f[:-2] for f in prop_files(prop)] + list(extra_targets)
+            pfiles = prop_files(prop) if not degraded else [prop + ".v"]
+            if degraded:
+                self.cov["degraded_build"] = "a source translator of an additional layer rejected the source; building Props/%s.v only and searching for a failing input with it" % prop
+            targets = ["Props/%s.vo" % f[:-2] for f in pfiles] + list(extra_targets)
             cmd = ["timeout", "2400", "make", "-j16"] + targets
             r = subprocess.run(cmd, cwd=COQDIR, capture_output=True, text=True)
             self.cov["checker_cmd"] = "cd coq && coq_makefile -f _CoqProject -o Makefile && make -j16 " + " ".join(targets) + \
@@ -179,11 +187,19 @@ class Run:
                 where = "%s line %s" % (m.group(1), m.group(2)) if m else "?"
                 self.build_log = (r.stdout + r.stderr)[-3000:]
                 self.broken_obligation(where, "coqc failed: " + self.build_log[-1200:])
-                return False
+                # A broken obligation in an additional layer (Props/<prop>Float.v, Props/<prop>Src.v: generated from the source)
+                # must not end the run without a search for a failing input: when the property's own file still builds,
+                # the check goes on with it (the run fails in any case: the broken obligation has been reported).
+                core = ["Props/%s.vo" % prop] + list(extra_targets)
+                if core == targets or subprocess.run(["timeout", "2400", "make", "-j16"] + core, cwd=COQDIR,
+                                                     capture_output=True, text=True).returncode != 0:
+                    return False
+                pfiles = [prop + ".v"]
+                self.cov["degraded_build"] = "only Props/%s.v (and its cone) could be built; searching for a failing input with it" % prop
         finally:
             fcntl.flock(lock, fcntl.LOCK_UN)
             lock.close()
-        cone = sorted(set(f for pf in prop_files(prop) for f in coq_cone("Props/" + pf)))
+        cone = sorted(set(f for pf in pfiles for f in coq_cone("Props/" + pf)))
         n_stmt = n_closed = 0
         for f in cone:
             txt = strip_comments(open(os.path.join(COQDIR, f)).read())
@@ -198,7 +214,7 @@ class Run:
         self.cov["cone_files"] = cone
         # closedness of the property theorems
         names, src = [], ""
-        for pf in prop_files(prop):
+        for pf in pfiles:
             ptxt = strip_comments(open(os.path.join(COQDIR, "Props", pf)).read())
             ns = [n for (_, n) in STMT.findall(ptxt)]
             names += ns
